@@ -498,6 +498,12 @@ func (c *SimConn) idle(ms int) {
 // sleep lets d pass on the bubble's fake clock.
 func (c *SimConn) sleep(d time.Duration) {
 	c.IdleMs += d.Milliseconds()
+	bubbleSleep(d)
+}
+
+// bubbleSleep sleeps on the bubble's fake clock in a way the joins know about
+// (see bubbleWait).
+func bubbleSleep(d time.Duration) {
 	simSleepUntil.Store(time.Now().Add(d).UnixNano())
 	simSleepers.Add(1)
 	time.Sleep(d)
@@ -528,6 +534,7 @@ func bubbleWait() {
 
 // SimListener hands out prepared connections, then blocks until Close.
 type SimListener struct {
+	failed  bool
 	task    int // the scheduler task of the accept loop that uses this listener
 	rt      *Runtime
 	offer   chan net.Conn
@@ -555,6 +562,10 @@ func (l *SimListener) Accept() (net.Conn, error) {
 		return nil, net.ErrClosed
 	default:
 	}
+	if sc := l.rt.C.Sched; sc != nil && sc.AcceptErr && !l.failed && l == l.rt.L && l.Accepts == len(l.rt.Conns) {
+		l.failed = true
+		return nil, errSimAccept
+	}
 	select {
 	case c := <-l.offer:
 		l.Accepts++
@@ -563,6 +574,8 @@ func (l *SimListener) Accept() (net.Conn, error) {
 		return nil, net.ErrClosed
 	}
 }
+
+var errSimAccept = errors.New("sim: accept: too many open files")
 
 // Close implements net.Listener.
 func (l *SimListener) Close() error {
